@@ -365,7 +365,8 @@ func mergeBlocks(closeCh <-chan struct{}, bw *blockWriter, br *blockReader, conf
 		tmpBlock2.reset()
 		tmpBlock2.append(tmpBlock, l)
 		bw.mustWriteBlock(tmpBlock.bm.seriesID, &tmpBlock2.block)
-		releaseDecoder()
+		// Do not release the decoder here: the rows kept in pendingBlock still refer to
+		// values inside its buffer. It is released once that block has been written.
 	}
 	if err := br.error(); err != nil {
 		return nil, nil, fmt.Errorf("cannot read block to merge: %w", err)
